@@ -35,7 +35,15 @@ EmptyS == [time |-> [n \in Node |-> NoT], E |-> {}, tid |-> [n \in Node |-> None
 \* feature masks offered to enable / disable (bits: area iou circ lid pos tid perim axes, 256 = unknown)
 SwitchMasks == IF HasSeg THEN {1, 2, 4, 8, 3, 5, 6, 12, 16, 64, 128, 15, 256, 257}
                ELSE {8, 32, 40, 1, 256, 264}
-StrokeOK(b) == MaxStroke = 0 \/ Cardinality({r \in 0..(P - 1) : Bit(b, r)}) <= MaxStroke
+\* MaxStroke = 99: a fixed menu of strokes for 3x3x3 frames (in-frame position = 9z + 3y + x):
+\* the 2x2x2 cube at the origin, the cube at (1,1,1), the slab z = 0, the column x = y = 1, one corner voxel,
+\* the centre voxel, half of the first cube
+StrokeMenu == {1 + 2 + 8 + 16 + 512 + 1024 + 4096 + 8192,
+               8192 + 16384 + 65536 + 131072 + 4194304 + 8388608 + 33554432 + 67108864,
+               511, 16 + 8192 + 4194304, 1, 8192, 1 + 2 + 8 + 16}
+StrokeOK(b) == MaxStroke = 0 \/ (MaxStroke = 99 /\ b \in StrokeMenu)
+               \/ (MaxStroke \in 1..98 /\ Cardinality({r \in 0..(P - 1) : Bit(b, r)}) <= MaxStroke)
+StrokeSet == IF MaxStroke = 99 THEN StrokeMenu ELSE {x \in 1..(2 ^ P - 1) : StrokeOK(x)}
 \* the call alphabet offered in state s (refused calls included)
 Ids(s) == 1..(IF s.maxT + 2 <= MaxId THEN s.maxT + 2 ELSE MaxId)
 Calls(s) ==
@@ -51,9 +59,9 @@ Calls(s) ==
     \cup (IF KSetAttr \in Kinds THEN {<<KSetAttr, n, k, 1, 0>> : n \in Node, k \in 1..(IF HasSeg THEN 8 ELSE 4)} ELSE {})
     \cup (IF KPaint \in Kinds /\ HasSeg
             THEN \* track id and force only matter when the stroke creates a node
-                 {<<KPaint, t, b, v, 2 * i + f>> : t \in Times, b \in {x \in 1..(2 ^ P - 1) : StrokeOK(x)},
+                 {<<KPaint, t, b, v, 2 * i + f>> : t \in Times, b \in StrokeSet,
                                                     v \in {w \in 1..N : ~Has(s, w)}, i \in {1, s.maxT + 1}, f \in {0, 1}}
-                 \cup {<<KPaint, t, b, v, 2>> : t \in Times, b \in {x \in 1..(2 ^ P - 1) : StrokeOK(x)}, v \in {0} \cup Present(s)}
+                 \cup {<<KPaint, t, b, v, 2>> : t \in Times, b \in StrokeSet, v \in {0} \cup Present(s)}
             ELSE {})
     \cup (IF KEnable \in Kinds
             THEN {<<KEnable, m, r, 0, 0>> : m \in SwitchMasks, r \in {0, 1}} \cup {<<KDisable, m, 0, 0, 0>> : m \in SwitchMasks}
@@ -82,7 +90,7 @@ ExpCalls(s) ==
        ELSE {})
     \cup {c \in Calls(s) : c[1] \in {KAddEdge, KDelEdge, KDelNode, KSwap, KUndo, KRedo}}
     \* strokes of at most two pixels explore; all strokes are fired
-    \cup {c \in Calls(s) : c[1] = KPaint /\ Cardinality(Stroke(c[2], c[3])) <= 2}
+    \cup {c \in Calls(s) : c[1] = KPaint /\ (MaxStroke = 99 \/ Cardinality(Stroke(c[2], c[3])) <= 2)}
     \cup (IF KSetAttr \in Kinds THEN {<<KSetAttr, 1, 1, 1, 0>>} ELSE {})
     \* switching explores with recomputation only (stale values after recompute=False are allowed)
     \cup {c \in Calls(s) : (c[1] = KEnable /\ c[3] = 1 /\ c[2] < 256) \/ (c[1] = KDisable /\ c[2] < 256 /\ ~Bit(c[2], 5))}
@@ -129,6 +137,8 @@ SeedsSeg6s == {
 \* 5 labels on 1x3 frames, for the BULK IoU computation: (i) node 1@0 divides into 3@1 and 5@2 (a skip edge) while
 \* node 2@0 has a child 4@1 - the out-edges of frame 0 alternate between target frames 1, 2, 1;
 \* (ii) a skip edge 1@0 -> 3@2 next to an overlapping consecutive edge 2@1 -> 4@2
+\* 3x3x3 frames (stroke menu): two overlapping cubes in consecutive frames on one track
+SeedsSeg333 == {<<>>, << <<KPaint,0,13851,1,2>>, <<KPaint,1,113467392,2,2>> >>}
 SeedsSeg5s == {
    << <<KPaint,0,1,1,2>>, <<KPaint,0,4,2,4>>, <<KPaint,1,3,3,2>>, <<KPaint,2,1,5,6>>, <<KAddEdge,1,5,0,0>>, <<KPaint,1,4,4,4>> >>,
    << <<KPaint,0,1,1,2>>, <<KPaint,2,1,3,2>>, <<KPaint,1,6,2,4>>, <<KPaint,2,6,4,4>> >> }
